@@ -73,9 +73,10 @@ func ZZ_C19_Distribution() {
 		}
 		var power int64
 		if vrt.Thorough() {
-			power = [][]int64{{3, 5}, {1, 1}, {7, 1}}[vrt.Choose("powers", 3)][i]
+			power = [][]int64{{3, 5}, {1, 1}, {7, 1}, {1, 2}, {10, 60}}[vrt.Choose("powers", 5)][i]
 		} else {
-			power = [][]int64{{3, 5}, {1, 1}}[vrt.Choose("powers", 2)][i] // quick tier: fixed power splits
+			// quick tier: fixed power splits; {1,2} has shares that are not exact decimal fractions
+			power = [][]int64{{3, 5}, {1, 1}, {1, 2}}[vrt.Choose("powers", 3)][i]
 		}
 		env.Staking.Vals = append(env.Staking.Vals, ZZVal{Oper: oper, Power: power, Bonded: true})
 		k.setValidatorExternalAddress(ctx, "minter", oper, ext)
@@ -89,6 +90,10 @@ func ZZ_C19_Distribution() {
 	var txs []*types.SendToExternal
 	for i := 0; i < nt; i++ {
 		ste := zzSteNamed("t"+string(rune('0'+i)), chain, tokId, 1, false)
+		if i == 0 {
+			// the commission only meets the (concrete) power shares: any size up to several whole tokens
+			ste.ValCommission.Amount = sdk.NewIntFromBigInt(vrt.IntRange("com.large", big.NewInt(0), new(big.Int).Lsh(big.NewInt(1), 72)))
+		}
 		if i == 1 {
 			// second transfer: fee from a fixed set (a second symbolic fee makes the pro-rata refund fee*fee/(fee+fee) non-linear)
 			ste.Fee.Amount = sdk.NewInt([]int64{0, 7, 31}[vrt.Choose("fee1.fixed", 3)])
